@@ -296,6 +296,12 @@ yy, xx = np.mgrid[0:H, 0:W]
 img = rng.normal(0, 1, (H, W)) + 0.02 * yy
 if cfg.get('nanblock'):
     img[5:9, 7:12] = np.nan
+if cfg.get('blankcols'):
+    img[:, :cfg['blankcols']] = np.nan
+if cfg.get('infs'):
+    img[20, 20] = np.inf
+    img[30, 5] = -np.inf
+    img[2:4, 30:33] = np.inf
 BS = cfg.get('bscale')
 def run(a, tag):
     fn = os.path.join(d, tag + '.fits')
@@ -371,17 +377,351 @@ def bane_oracle(cfg):
     return False, None, None
 
 
+# ------------------------------------------------------------------------------------------------
+# K-exec: the whole real sigma_filter, every stripe, on a small image of symbolic pixels
+# ------------------------------------------------------------------------------------------------
+import threading
+from bisect import bisect_right
+from fractions import Fraction
+
+
+class OA(real_np.ndarray):
+    """object ndarray of pixels (symbolic reals, NaN, +-inf) that survives astype(float64)"""
+    def astype(self, *a, **k):
+        return self.copy()
+
+
+def oa(a):
+    return real_np.asarray(a, dtype=object).view(OA)
+
+
+class ExecNP(loader.NPProxy):
+    def __init__(self, shared):
+        loader.NPProxy.__init__(self)
+        self._shared = shared
+
+    def ndarray(self, shape, dtype=None, buffer=None):
+        return self._shared[buffer]
+
+    def zeros(self, shape=None, dtype=None, **kw):
+        out = real_np.empty(shape, dtype=object)
+        out[...] = 0
+        return out
+
+    def array(self, a, *args, **kw):
+        if isinstance(a, real_np.ndarray) and a.dtype == object:
+            return a
+        return loader.NPProxy.array(self, a, *args, **kw)
+
+
+def _finite(v):
+    return isinstance(v, SN) or (v == v and v not in (float('inf'), float('-inf')))
+
+
+class ClipStub:
+    """sigmaclip by contract: non-finite samples are ignored; no sample -> (NaN, NaN); otherwise
+    (mean, std) = (x0 + M_n(x - x0), S_n(x - x0)) with M_n, S_n uninterpreted: the statistics depend on the samples only
+    through their differences (shift equivariance, decided on the real function for n <= 3 in K-sigmaclip), S >= 0,
+    and identical samples give (that value, 0)"""
+    def __init__(self, c):
+        self.c = c
+        self.calls = 0
+
+    def __call__(self, arr, lo, hi, reps=10):
+        self.calls += 1
+        vals = [v for v in real_np.ravel(arr) if _finite(v)]
+        if not vals:
+            return float('nan'), float('nan')
+        ref = core.lift(vals[0])
+        ref = z3.ToReal(ref) if ref.sort().kind() == z3.Z3_INT_SORT else ref
+        diffs = []
+        for v in vals:
+            e = core.lift(v)
+            e = z3.ToReal(e) if e.sort().kind() == z3.Z3_INT_SORT else e
+            diffs.append(z3.simplify(e - ref))
+        if all(z3.is_rational_value(d) and d.numerator_as_long() == 0 for d in diffs):
+            return SN(ref), SN(z3.RealVal(0))
+        n = len(diffs)
+        M = z3.Function('clipmean_%d' % n, *([z3.RealSort()] * n + [z3.RealSort()]))
+        S = z3.Function('clipstd_%d' % n, *([z3.RealSort()] * n + [z3.RealSort()]))
+        s_ = S(*diffs)
+        self.c.assume(s_ >= 0)
+        return SN(ref + M(*diffs)), SN(s_)
+
+
+class RGI:
+    """RegularGridInterpolator(method='linear') by contract: bilinear weights of the enclosing cell in exact rationals; all
+    four corners enter the sum (a NaN corner gives NaN even at weight 0, as in scipy)"""
+    def __init__(self, points, values, **kw):
+        self.rows, self.cols = [int(x) for x in points[0]], [int(x) for x in points[1]]
+        self.vals = values
+
+    def _cell(self, grid, x):
+        i = min(max(bisect_right(grid, x) - 1, 0), len(grid) - 2)
+        return i, Fraction(x - grid[i], grid[i + 1] - grid[i])
+
+    def __call__(self, xi):
+        gr, gc = xi
+        out = real_np.empty(gr.shape, dtype=object)
+        for idx in real_np.ndindex(gr.shape):
+            i, t = self._cell(self.rows, int(gr[idx]))
+            j, u = self._cell(self.cols, int(gc[idx]))
+            acc = 0
+            for (a, b, w) in ((i, j, (1 - t) * (1 - u)), (i, j + 1, (1 - t) * u), (i + 1, j, t * (1 - u)), (i + 1, j + 1, t * u)):
+                v = self.vals[a, b]
+                if isinstance(v, SN):
+                    acc = acc + v * w if w != 0 else acc + v * 0
+                else:
+                    acc = acc + float(v) * float(w)
+            out[idx] = acc
+        return out
+
+
+class SeqBarrier:
+    """the workers run one at a time (a run lock is released only while waiting here): a faithful sequential schedule of the
+    barrier protocol (the protocol itself is C07)"""
+    def __init__(self, n, lock):
+        self.b = threading.Barrier(n)
+        self.lock = lock
+
+    def wait(self):
+        self.lock.release()
+        try:
+            self.b.wait(timeout=120)
+        finally:
+            self.lock.acquire()
+
+    def reset(self):
+        pass
+
+    def abort(self):
+        self.b.abort()
+
+
+def run_bane_sym(c, bane, pixels, stripes, grid, box, domask=True, bscale=None, naxis=2):
+    """all stripes of the real sigma_filter on the pixel array `pixels` (object array); returns (ibkg, irms)"""
+    H, W = pixels.shape
+    shared = {'ibkg_x': oa(real_np.full((H, W), 0, dtype=object)), 'irms_x': oa(real_np.full((H, W), 0, dtype=object))}
+    bane.np = ExecNP(shared)
+    bane.memory_id = 'x'
+
+    class SM:
+        def __init__(self, name=None, create=False, size=0):
+            self.buf = name
+
+        def close(self):
+            pass
+
+        def unlink(self):
+            pass
+    bane.SharedMemory = SM
+    hdr = {'NAXIS': naxis}
+    if bscale is not None:
+        hdr['BSCALE'] = bscale
+
+    class Sec:
+        def __getitem__(self, key):
+            if naxis == 3:
+                key = key[1:]
+            if naxis == 4:
+                key = key[2:]
+            return oa(pixels[key].copy())
+
+    class HDU:
+        section = Sec()
+        header = hdr
+
+    class HL(list):
+        def __enter__(self):
+            return self
+
+        def __exit__(self, *a):
+            return False
+
+    class Fits:
+        @staticmethod
+        def getheader(fn, *a, **k):
+            return dict(hdr)
+
+        @staticmethod
+        def open(fn, *a, **k):
+            return HL([HDU()])
+    bane.fits = Fits
+    bane.sigmaclip = ClipStub(c)
+    bane.RegularGridInterpolator = RGI
+    bane._verif_point = lambda *a, **k: None
+    lock = threading.Lock()
+    bane.barrier = SeqBarrier(len(stripes), lock)
+    errs = []
+
+    def work(region):
+        lock.acquire()
+        try:
+            bane.sigma_filter('f.fits', region, grid, box, (H, W), domask, 0)
+        except BaseException as e:
+            errs.append(e)
+            try:
+                bane.barrier.abort()
+            except Exception:
+                pass
+        finally:
+            lock.release()
+    ths = [threading.Thread(target=work, args=(r,)) for r in stripes]
+    for t in ths:
+        t.start()
+    for t in ths:
+        t.join()
+    if errs:
+        real_errs = [e for e in errs if not isinstance(e, threading.BrokenBarrierError)] or errs
+        raise real_errs[0]
+    return shared['ibkg_x'], shared['irms_x']
+
+
+EXEC_CONFIGS = [
+    dict(name='8x6 one stripe', H=8, W=6, grid=(2, 2), box=(4, 4), stripes=[(0, 8)], blanks={}),
+    dict(name='8x6 two stripes', H=8, W=6, grid=(2, 2), box=(4, 4), stripes=[(0, 4), (4, 8)], blanks={}),
+    dict(name='12x6 three stripes, NaN block and infinities', H=12, W=6, grid=(2, 2), box=(4, 4), stripes=[(0, 4), (4, 8), (8, 12)],
+         blanks={(5, 2): 'nan', (5, 3): 'nan', (6, 2): 'nan', (6, 3): 'nan', (0, 0): 'inf', (11, 5): '-inf'}),
+    dict(name='8x12 box == grid, left half blank', H=8, W=12, grid=(4, 4), box=(4, 4), stripes=[(0, 8)], blanks={(r, cc): 'nan' for r in range(8) for cc in range(6)}),
+    dict(name='8x12 box == grid, left half blank, two stripes', H=8, W=12, grid=(4, 4), box=(4, 4), stripes=[(0, 4), (4, 8)], blanks={(r, cc): 'nan' for r in range(8) for cc in range(6)}),
+    dict(name='9x5 unaligned stripes, grid (2,3) box (4,5)', H=9, W=5, grid=(2, 3), box=(4, 5), stripes=[(0, 5), (5, 9)], blanks={(8, 4): 'nan'}),
+]
+
+
+def h_exec(bane, cfg, mode):
+    def h(c):
+        H, W = cfg['H'], cfg['W']
+        sp = {'nan': float('nan'), 'inf': float('inf'), '-inf': float('-inf')}
+
+        def image(f):
+            a = real_np.empty((H, W), dtype=object)
+            for r in range(H):
+                for cc in range(W):
+                    k = cfg['blanks'].get((r, cc))
+                    a[r, cc] = sp[k] if k else f(r, cc)
+            return a
+        tag = 'sigma_filter[%s,%s]' % (cfg['name'], mode)
+        kw = dict(stripes=cfg['stripes'], grid=cfg['grid'], box=cfg['box'])
+        L = core.lift
+        if mode == 'const':
+            v = real('v')
+            b, r_ = run_bane_sym(c, bane, image(lambda r, cc: v), **kw)
+            cl, nb = [], 0
+            for idx in real_np.ndindex((H, W)):
+                if isinstance(b[idx], SN):
+                    cl.append(L(b[idx]) == v.e)
+                    nb += 1
+                if isinstance(r_[idx], SN):
+                    cl.append(L(r_[idx]) == 0)
+                elif not (r_[idx] != r_[idx]):
+                    cl.append(z3.BoolVal(r_[idx] == 0))
+            c.oblige(tag + ':constant image -> background == the constant and noise == 0 wherever defined', z3.And(cl))
+            c.oblige(tag + ':constant image -> some background defined', z3.BoolVal(nb > 0))
+            return dict()
+        px = lambda r, cc: real('p_%d_%d' % (r, cc))
+        b0, r0 = run_bane_sym(c, bane, image(px), **kw)
+        blank = set(cfg['blanks'])
+        # mask clauses (NaN-ness is concrete in this model)
+        isnan = lambda v: not isinstance(v, SN) and v != v
+        c.oblige(tag + ':every non-finite input pixel is NaN in both maps', z3.BoolVal(all(isnan(b0[p]) and isnan(r0[p]) for p in blank)),
+                 info=str([p for p in blank if not (isnan(b0[p]) and isnan(r0[p]))][:6]))
+        c.oblige(tag + ':maps hold numbers or NaN only (no infinities)', z3.BoolVal(all(isinstance(v, SN) or v != v for v in list(b0.ravel()) + list(r0.ravel()))))
+        reach = (cfg['box'][0] // 2 + cfg['grid'][0], cfg['box'][1] // 2 + cfg['grid'][1])
+        far = [p for p in real_np.ndindex((H, W)) if all(abs(p[0] - q[0]) > reach[0] or abs(p[1] - q[1]) > reach[1] for q in blank)]
+        c.oblige(tag + ':pixels farther than box/2 + grid from every blank pixel are finite in both maps', z3.BoolVal(all(isinstance(b0[p], SN) and isinstance(r0[p], SN) for p in far)),
+                 info=str([p for p in far if not (isinstance(b0[p], SN) and isinstance(r0[p], SN))][:6]))
+        if mode == 'shift':
+            sh = real('shift')
+            b1, r1 = run_bane_sym(c, bane, image(lambda r, cc: px(r, cc) + sh), **kw)
+            same_nan = all(isnan(b0[p]) == isnan(b1[p]) and isnan(r0[p]) == isnan(r1[p]) for p in real_np.ndindex((H, W)))
+            c.oblige(tag + ':adding a constant leaves the blank pattern of the maps', z3.BoolVal(same_nan))
+            c.oblige(tag + ':adding c to the image adds c to the background', z3.And([L(b1[p]) == L(b0[p]) + sh.e for p in real_np.ndindex((H, W)) if isinstance(b0[p], SN) and isinstance(b1[p], SN)]), timeout_ms=60000)
+            c.oblige(tag + ':adding c to the image leaves the noise unchanged', z3.And([L(r1[p]) == L(r0[p]) for p in real_np.ndindex((H, W)) if isinstance(r0[p], SN) and isinstance(r1[p], SN)]), timeout_ms=60000)
+        if mode == 'bscale':
+            # stored values d with BSCALE = 2 against stored values 2 d without the keyword: the same physical image
+            b1, r1 = run_bane_sym(c, bane, image(lambda r, cc: px(r, cc) / 2), bscale=2, **kw)
+            ok = all((isnan(b0[p]) and isnan(b1[p])) or (isinstance(b0[p], SN) and isinstance(b1[p], SN)) for p in real_np.ndindex((H, W)))
+            c.oblige(tag + ':BSCALE: same blank pattern', z3.BoolVal(ok))
+            c.oblige(tag + ':BSCALE: maps of the physical image', z3.And([L(b1[p]) == L(b0[p]) for p in real_np.ndindex((H, W)) if isinstance(b0[p], SN) and isinstance(b1[p], SN)] +
+                                                                         [L(r1[p]) == L(r0[p]) for p in real_np.ndindex((H, W)) if isinstance(r0[p], SN) and isinstance(r1[p], SN)]), timeout_ms=60000)
+        if mode == 'cube':
+            b1, r1 = run_bane_sym(c, bane, image(px), naxis=3, **kw)
+            c.oblige(tag + ':3-D file: same maps as the 2-D plane', z3.And([z3.BoolVal(isnan(b0[p]) == isnan(b1[p]) and isnan(r0[p]) == isnan(r1[p])) for p in real_np.ndindex((H, W))] +
+                                                                          [L(b1[p]) == L(b0[p]) for p in real_np.ndindex((H, W)) if isinstance(b0[p], SN) and isinstance(b1[p], SN)]), timeout_ms=60000)
+        return dict(clips=bane.sigmaclip.calls)
+    return h
+
+
+def exec_replay():
+    for cfg in (dict(H=48, W=40, grid=4, box=12, cores=2, nslice=2, offset=1000.0, scale=3.0, nanblock=False),
+                dict(H=48, W=40, grid=4, box=12, cores=1, nslice=1, offset=1000.0, scale=-2.5, nanblock=True),
+                dict(H=64, W=96, grid=16, box=16, cores=1, nslice=1, offset=1000.0, scale=2.0, nanblock=True, blankcols=40),
+                dict(H=48, W=40, grid=4, box=12, cores=2, nslice=2, offset=10.0, scale=2.0, nanblock=True, infs=True)):
+        bad, cls, detail = bane_oracle(cfg)
+        if bad:
+            return bad, cls, detail, cfg
+    return False, None, None, None
+
+
+def k_exec(rep, thorough):
+    rep.kernel('K-exec', functions=[F + ':sigma_filter'],
+               bounds='the WHOLE function for every stripe of small images (8x6, 12x6, 8x12, 9x5; 1-3 stripes, aligned and not; grid/box (2,2)/(4,4), (4,4)/(4,4), (2,3)/(4,5)) with every pixel a symbolic real or NaN/+inf/-inf at fixed places; relational runs: image vs image + c, BSCALE, 3-D file, constant image',
+               stubs=['sigmaclip -> contract over uninterpreted functions of the sample differences (ClipStub docstring; the real function is K-sigmaclip)',
+                      'RegularGridInterpolator -> exact bilinear weights (validated against scipy on the same grids)', 'astropy fits -> header dict + pixel array sections', 'SharedMemory/np.ndarray(buffer=) -> shared object arrays',
+                      'barrier -> workers run one at a time, switching only at barrier.wait() (schedules are C07)'],
+               assumes=['floats as reals', 'the geometry (image, stripes, grid, box) is concrete per configuration'], outside=['scale by k (K-sigmaclip and the replay oracle)', 'statistics of the clipped samples'])
+    # the interpolation stub against scipy on the grids used
+    import random
+    from scipy.interpolate import RegularGridInterpolator as RealRGI
+    rng = random.Random(5)
+    okv = True
+    for rows, cols in (([0, 2, 4], [0, 2, 4, 6]), ([4, 6, 8], [0, 3, 5]), ([0, 4, 8], [0, 4, 8, 12])):
+        vals = real_np.array([[rng.uniform(-5, 5) for _ in cols] for _ in rows])
+        gr, gc = real_np.mgrid[rows[0]:rows[-1], 0:cols[-1]]
+        want = RealRGI((rows, cols), vals)((gr, gc))
+        got = RGI((rows, cols), vals)((gr, gc)).astype(float)
+        okv = okv and bool(real_np.allclose(want, got, atol=1e-12))
+    rep.count('unsat' if okv else 'unknown', 'stub:bilinear interpolation stub == scipy RegularGridInterpolator on the kernel grids')
+    bane = loader.load_private(['BANE'])['BANE']
+    loader.patch(bane, builtins=False)
+    plans, meta = [], []
+    for cfg in EXEC_CONFIGS:
+        for mode in ('shift', 'const') + (('bscale', 'cube') if (thorough or cfg is EXEC_CONFIGS[1]) else ()):
+            plans.append((h_exec(bane, cfg, mode), dict(wall_s=600)))
+            meta.append((cfg['name'], mode))
+    done = set()
+    for (name, mode), (st, res) in zip(meta, core.explore_many(plans, workers=12)):
+        rep.stats(st)
+        for r in res:
+            for ob in r['obligations']:
+                rep.count(ob['result'], ob['name'])
+                if ob['result'] == 'sat':
+                    what = ob['name'].split(':')[-1]
+                    if what in done:
+                        continue
+                    bad, cls, detail, cfg = exec_replay()
+                    if rep.finding('C06/K-exec/%s' % (cls or what), dict(kind='bane', cfg=cfg) if cfg else dict(kind='exec'), detail or ob['name'], reproduced=bool(bad)) != 'not-reproduced':
+                        done.add(what)
+        rep.sample(dict(kernel='K-exec', config=name, mode=mode, obligations=[(o['name'].split(':')[-1], o['result']) for r in res for o in r['obligations']][:8]))
+    rep.end_kernel()
+
+
 def run(rep):
     thorough = rep.tier == 'thorough'
     rep.assume('RegularGridInterpolator is taken by contract (exact at nodes, convex combination of the cell corners, equivariant under affine maps of the values); its arithmetic is not encoded',
                'images with at least 2 rows and 2 columns; grid >= 1, box >= max(4, grid)')
+    k_exec(rep, thorough)
     try:
         fac, text = slice_grid()
         subtraction_statement()
         mask_statements()
+        sliced_kernels(rep, fac, text)
     except slicer.AnchorMissing as e:
-        rep.inconc('anchor-missing %s' % e)
-        return
+        rep.inconc('K-grid/K-dataflow: anchor-missing %s (the statements these two kernels locate by shape are not in sigma_filter in that form; K-exec runs the whole function instead)' % e)
+    rest_of_run(rep, thorough)
+
+
+def sliced_kernels(rep, fac, text):
     rep.kernel('K-grid', functions=[F + ':sigma_filter'], bounds='all integers H, W >= 2, any stripe [ymin, ymax) of the image, grid >= 1, box >= max(4, grid) per axis; node lists of symbolic length, arbitrary node index (LIA)',
                stubs=['range/list/append/len -> symbolic-length lists', 'np.mgrid -> slice recorder', 'FITS reading cut: the data array is represented by its shape'],
                assumes=['backward slice (by names) of the row/col/box arithmetic; the nested function box() is the real one'])
@@ -398,6 +738,9 @@ def run(rep):
         rep.stats(st)
         collect(rep, res, 'K-dataflow')
     rep.end_kernel()
+
+
+def rest_of_run(rep, thorough):
     k_bscale(rep)
     bane = loader.load_private(['BANE'])['BANE']
     loader.patch(bane)
@@ -423,7 +766,9 @@ def run(rep):
                 dict(H=48, W=40, grid=4, box=12, cores=2, nslice=2, offset=1000.0, scale=3.0, nanblock=False),
                 dict(H=60, W=33, grid=5, box=20, cores=3, nslice=3, offset=-250.0, scale=0.5, nanblock=True),
                 dict(H=48, W=40, grid=4, box=12, cores=2, nslice=2, offset=10.0, scale=2.0, nanblock=False, bscale=-2.5),
-                dict(H=36, W=44, grid=2, box=4, cores=1, nslice=1, offset=5.0, scale=2.0, nanblock=False)):
+                dict(H=36, W=44, grid=2, box=4, cores=1, nslice=1, offset=5.0, scale=2.0, nanblock=False),
+                dict(H=64, W=96, grid=16, box=16, cores=1, nslice=1, offset=1000.0, scale=2.0, nanblock=True, blankcols=40),
+                dict(H=48, W=40, grid=4, box=12, cores=2, nslice=2, offset=10.0, scale=2.0, nanblock=True, infs=True)):
         bad, cls, detail = bane_oracle(cfg)
         rep.validated_runs(4)
         if bad:
